@@ -12,6 +12,9 @@ BASE_NOTE = ("Trusted base: the harness (mvf/coop.py cooperative scheduler, "
              "several engine processes are out of reach (DESIGN.md section 7).")
 
 CHECKS = {
+ 'C01': ('exploration',
+         "Held on the executions explored: generated direct workflows (forks, full joins, guards, on-success / on-error / on-complete routes, task-defaults handlers, fail / succeed / noop commands, failing expressions in input / publish / transitions), fork-join shapes with dead chains and dead cycles, bounded cycles driven by a published counter, reverse (requires) graphs and a family with partial joins / merges / commands anywhere; several action-result assignments and delivery orders (fifo, lifo, random, PCT, starvation of jobs / post-commit operations), both schedulers.  Deciding monitors: quiescence (after everything in flight and three integrity-check periods: every execution final, no task of a naturally finished workflow unfinished), exception type (only declared error types leave engine entry points, post-commit operations, scheduled jobs), and on the deterministic fragment an executable reference semantics written from the language documentation (mvf/ref.py): workflow state, multiset of task executions with states, the input each action received, which actions ran and the evaluated output must be equal to the reference's.",
+         "runtime monitoring: reference-model monitor (independent executable semantics of the workflow language) over recorded final rows and ACTION_RUN events + quiescence / exception-type trace monitors, under schedule perturbation"),
  'C02': ('exploration',
          "Held on the executions explored: for each generated deterministic-fragment program (and bundled definitions) a canonical fifo run and perturbed runs (other schedules incl. PCT/delay/starvation with yield points at transaction entry, early clock advances, other uuid seed, spec caches dropped after every step, other scheduler implementation, dfs over all unit orders of small programs) must have equal normal forms; icontract contracts on merge_context_by_version / _rearrange_commands evaluated on the engine's real arguments.",
          "runtime monitoring: metamorphic run-vs-run equality of recorded final rows across schedules + runtime contracts (icontract) on the merge functions"),
@@ -70,7 +73,8 @@ CHECKS = {
          "Held on the fault sequences enumerated: silent / answered / asynchronous actions in forked workflows, heartbeats for subsets, real handle_expired_actions passes with the virtual clock at threshold-1 / threshold / threshold+1 / far beyond (after the last heartbeat or the first-heartbeat grace) in every order relative to late genuine results, settings incl. disabled; oracle: age >= threshold+1 must be failed with the heartbeat error, age <= threshold-1 must not, asynchronous / fresh / finished never, task and workflow follow their error handling, late results change no row; a stuck task manufactured by losing exactly one hand-off (with-items completion job, child->parent result) is completed exactly once by the engine's own integrity job so that the run equals the loss-free run, nothing scheduled with a negative delay.",
          "runtime monitoring: expiry-predicate monitor over action rows before/after each real checker pass on the virtual clock + metamorphic equality with the loss-free run after single hand-off loss"),
 }
-NOTES = {'C05': "Trusted base: the generator's own edge list as the causal order (every edge fires by construction, checked: every task ran exactly once), unique published values. Known findings (open): Jinja method calls mutate stored context objects; dictionaries meeting at a join are combined key by key so keys of an older dictionary survive.",
+NOTES = {'C01': "Trusted base: mvf/ref.py (reference semantics for direct workflows without partial joins, merges upstream of joins, policies, with-items, sub-workflows; reverse workflows), mvf/lang.py (independent YAML reading), the harness.  Outside the fragment, and where a command / failing expression ends the workflow while an unordered task is active, only the universal monitors decide.",
+         'C05': "Trusted base: the generator's own edge list as the causal order (every edge fires by construction, checked: every task ran exactly once), unique published values. Known findings (open): Jinja method calls mutate stored context objects; dictionaries meeting at a join are combined key by key so keys of an older dictionary survive.",
          'C09': "Trusted base: the evaluator in mvf/checks/c09.py (resolution order and outcome composition written from the documentation), harness transport for sub-workflow start messages. Known finding (open): undeclared input named like an EngineClient.start_workflow argument with start_subworkflows_via_rpc leaves the calling task RUNNING.",
          'C15': "Trusted base: fixtures created through services / DB API, identity from context / headers (authentication stubbed). Heartbeat reports and the engine-internal compare-and-swap functions are not tenant-facing and are excluded (see the evidence assumptions).",
          'C16': "Trusted base: authentication stubbed (identity from X-Project-Id / X-Roles headers), engine replaced by a recording stub answering from the database, request templates written by hand and cross-checked against the walked controller tree.",
